@@ -12,6 +12,9 @@ import (
 func init() {
 	core.Register("C02", &core.Scenario{
 		Run: func(c *core.Ctx) {
+			if !stageOn("main") {
+				return
+			}
 			c.Res.Rule = "each case: MTU from {1280,1281,1400,1499,1500} or random in [1280,1500], random valid traffic pattern per side (incl. low entropy), multiplex 0..3, 1..3 concurrent sessions, boundary and random write sizes in both directions, and a fault plan: clean / positional drops / duplicates / delays (reordering) / bursts / random loss up to 20% + duplication + reordering; thorough adds loss of the open request / open response / first k datagrams. Real protocol.Mux endpoints over the in-memory datagram network. Oracle: bytes read = bytes written in both directions and the transfer completes (a stall must reproduce in 2 of 3 runs). Every datagram is decoded by the reference codec and each (session, direction) history is replayed through the Lean acceptor Arq.acceptAll. Distinct = distinct case JSON."
 			c.Correspondence("observed UDP histories (writes, emissions, deliveries, acks) accepted by Mieru.Arq.acceptAll (trace inclusion); every datagram decodes with the reference codec")
 			n := c.N(36, 480)
@@ -86,6 +89,9 @@ func init() {
 	})
 	core.Register("C13", &core.Scenario{
 		Run: func(c *core.Ctx) {
+			if !stageOn("main") {
+				return
+			}
 			c.Res.Rule = "the fault schedules of C02 (same generator, different seeds): every datagram on the simulated network is decoded; each cumulative ack is compared with the exact set of that session's datagrams the network had handed to its emitter before the emission; all transmissions of one (session, direction, seq) are compared (type, fragment, payload); first transmissions must be numbered 0,1,2,…. Distinct = distinct case JSON."
 			c.Correspondence("wire monitor over UDP runs + Arq.acceptAll on every (session,direction) history")
 			n := c.N(36, 480)
